@@ -15,6 +15,7 @@ package main
 import (
 	"encoding/base64"
 	"encoding/binary"
+	"encoding/hex"
 	"fmt"
 	"net"
 	"os"
@@ -497,8 +498,6 @@ func lim(s uint32) []int { return []int{int(s >> 16), int(s & 0xffff)} }
 
 // recordIn: transfers beyond the bounds of MC_Xfr -- zones of up to 40 records, up to 5 difference
 // sequences, random partitions (with empty envelopes), up to 2 faults -- judged by Trace_Xfr.
-// Left to the bounded universe, where their verdict is known: error RCODEs after the first AXFR envelope
-// and IXFR serial pairs whose order differs between integers and RFC 1982.
 func recordIn(out string, n int) {
 	rnd := hx.Rand()
 	w := hx.NewWriter(out)
@@ -506,9 +505,14 @@ func recordIn(out string, n int) {
 	var sum hx.Summary
 	for c := 0; c < n; c++ {
 		s := script{tsig: rnd.Intn(2) == 0, eof: rnd.Intn(2) == 0, tail: rnd.Intn(5) == 0}
-		// serials without wrap-around: plain order and RFC 1982 order agree
+		// serials as offsets from a base that is, one time in three, just below 2^32: the serial then wraps
+		// inside the transfer and its order differs between integers and RFC 1982
 		base := uint32(rnd.Intn(1 << 30))
-		serial := base + 10 + uint32(rnd.Intn(1000))
+		if rnd.Intn(3) == 0 {
+			base = uint32(1<<32 - 1 - rnd.Intn(500))
+		}
+		top := 10 + rnd.Intn(1000) // the server's serial is base + top (mod 2^32)
+		serial := base + uint32(top)
 		var R []rec
 		id := 1
 		some := func(max int) {
@@ -535,34 +539,23 @@ func recordIn(out string, n int) {
 			s.q = [2]int{int(base >> 16), int(base & 0xffff)}
 			soa(serial)
 			some(30)
-			if len(R) > 1 && rnd.Intn(2) == 0 { // never an SOA in second place: that announces an incremental transfer
-			}
 			soa(serial)
 		default:
 			s.mode, desc = "ixfr", "ixfr incremental"
 			s.q = [2]int{int(base >> 16), int(base & 0xffff)}
 			soa(serial)
 			k := 1 + rnd.Intn(5)
-			cur := base
-			for j := 1; j <= k; j++ {
-				soa(cur)
+			cur := 0 // offset of the version the next difference sequence starts from
+			for j := 1; j <= k && cur < top; j++ {
+				soa(base + uint32(cur))
 				some(6)
-				next := cur + 1 + uint32(rnd.Intn(3))
-				if j == k {
-					next = serial
-				} else if next >= serial {
-					next = serial - 1
-					if next <= cur {
-						next = serial // collapse: this becomes the last sequence
-						k = j
-					}
+				next := cur + 1 + rnd.Intn(3)
+				if j == k || next >= top {
+					next = top
 				}
-				soa(next)
+				soa(base + uint32(next))
 				some(6)
 				cur = next
-				if cur == serial {
-					break
-				}
 			}
 			soa(serial)
 		}
@@ -589,8 +582,6 @@ func recordIn(out string, n int) {
 			case f.Kind == "nosoa":
 				f.Pos = 1
 			case f.Kind == "swap" && f.Pos == k:
-				continue
-			case f.Kind == "rcode" && s.mode == "axfr" && f.Pos > 1:
 				continue
 			}
 			seq := func(k string) bool {
@@ -770,6 +761,10 @@ func recordOut(out string, n int) {
 		// (2) the envelopes on the wire: a session chained on the query's MAC
 		ev := outEvent{Ev: "out", I: c + 1, Mode: "axfr", Q: []int{0, 0}, Chunks: chunks, Wire: [][]rec{}, IDs: true}
 		w.Emit(tsigEv{Ev: "q", I: 0, What: variant, Octets: hx.FromBytes(qo), Reqmac: hx.B{}, Now: limbs48(now), Secrets: tab})
+		prevMAC := ""
+		if qm := new(dns.Msg); qm.Unpack(qo) == nil && qm.IsTsig() != nil {
+			prevMAC = qm.IsTsig().MAC
+		}
 		for _, p := range msgs {
 			m := new(dns.Msg)
 			if err := m.Unpack(p); err != nil {
@@ -783,8 +778,28 @@ func recordOut(out string, n int) {
 			}
 			if variant == "signed" { // the server answers a verified request with a signed chain
 				idx++
-				w.Emit(tsigEv{Ev: "env", I: idx, What: "out", Octets: hx.FromBytes(p), Reqmac: hx.B{}, Now: limbs48(uint64(time.Now().Unix())),
+				tnow := uint64(time.Now().Unix())
+				w.Emit(tsigEv{Ev: "env", I: idx, What: "out", Octets: hx.FromBytes(p), Reqmac: hx.B{}, Now: limbs48(tnow),
 					Via: "server-out", Secrets: tab, Got: ""})
+				// ... and single-bit alterations of the envelope, verified the way Transfer.ReadMsg does it: against the MAC
+				// of the previous message, timers only from the second envelope on (every bit of the first two
+				// envelopes of the first transfers, a sample elsewhere)
+				first := len(ev.Wire) == 1
+				for b := 0; b < 8*len(p); b++ {
+					if (c >= 2 || len(ev.Wire) > 2) && rnd.Intn(8*len(p)) >= 64 {
+						continue
+					}
+					o := append([]byte(nil), p...)
+					o[b/8] ^= 0x80 >> uint(b%8)
+					idx++
+					prev, _ := hex.DecodeString(prevMAC)
+					got := dns.VerifTsigVerifyAt(append([]byte(nil), o...), dns.VerifTsigSecretProvider(map[string]string{keyName: secret}), prevMAC, !first, tnow)
+					w.Emit(tsigEv{Ev: "verify", I: idx, What: "envelope-bit", Octets: hx.FromBytes(o), Reqmac: hx.FromBytes(prev), Timers: !first,
+						Now: limbs48(tnow), Via: "hook", Secrets: tab, Got: errTextOf(got)})
+				}
+				if t := m.IsTsig(); t != nil {
+					prevMAC = t.MAC
+				}
 			}
 		}
 		ev.Variant = variant
